@@ -191,6 +191,21 @@ class _FPCoreCompileInstance(Visitor):
         self.gensym = Gensym(reserved=def_use.names())
         self.unsafe_int_cast = unsafe_int_cast
         self._type_info = None
+        # properties of each enclosing context, innermost last; the bottom entry
+        # is the function's own context, or FPCore's defaults where it has none
+        self._enclosing_props: list[dict[str, fpc.Data]] = [self._function_props(func)]
+
+    def _function_props(self, func: FuncDef) -> dict[str, fpc.Data]:
+        match func.ctx:
+            case Context():
+                props = dict(FPCoreContext.from_context(func.ctx).props)
+            case FPCoreContext():
+                props = dict(func.ctx.props)
+            case _:
+                props = {}
+        props.setdefault('precision', 'binary64')
+        props.setdefault('round', 'nearestEven')
+        return { k: fpc.Data(self._visit_data(v)) for k, v in props.items() }
 
     def compile(self) -> fpc.FPCore:
         f = self._visit_function(self.func, None)
@@ -1267,7 +1282,6 @@ class _FPCoreCompileInstance(Visitor):
         if isinstance(stmt.target, NamedId):
             raise FPCoreCompileError('Context statements cannot bind to a variable', stmt.target)
 
-        body = self._visit_block(stmt.body, ctx)
         # extract a context value
         match stmt.ctx:
             case ForeignVal():
@@ -1279,15 +1293,27 @@ class _FPCoreCompileInstance(Visitor):
         # convert to properties
         match val:
             case Context():
-                props = FPCoreContext.from_context(val).props
+                props = dict(FPCoreContext.from_context(val).props)
             case FPCoreContext():
-                props = val.props
+                props = dict(val.props)
             case _:
                 raise FPCoreCompileError('Expected `Context` or `FPCoreContext`', val)
 
         # transform properties
         for k in props:
             props[k] = fpc.Data(self._visit_data(props[k]))
+
+        # The statements after this block are compiled already (`ctx`) and end
+        # up nested inside the bindings of its body, so inside the annotation.
+        # They run under the enclosing context, not this one: say so.
+        if ctx is not None:
+            ctx = fpc.Ctx(dict(self._enclosing_props[-1]), ctx)
+
+        self._enclosing_props.append(props)
+        try:
+            body = self._visit_block(stmt.body, ctx)
+        finally:
+            self._enclosing_props.pop()
         return fpc.Ctx(props, body)
 
     def _visit_assert(self, stmt: AssertStmt, ctx: None):
